@@ -212,13 +212,14 @@ pub fn c01(cfg: &Cfg, idx: u64, st: &mut Stats) {
         let second = idx != dstart + C01_DELTAS.len() as u64;
         let (f, l) = if second { (10u32, 5u32) } else { (256, 2) };
         let case = MemBuildCase {
-            fam: KeyFamily { n: (f as u64).pow(l), fanout: f, keylen: l, seed: 1, pairs: false, leaf_fan: 0, decreasing: false },
+            fam: KeyFamily { n: (f as u64).pow(l), fanout: f, keylen: l, seed: 1, pairs: false, leaf_fan: 0, decreasing: false, repeat: 1 },
             map: second,
             registry: None,
             bufcap: None,
             every: 1000,
             shape: Shape::Full,
             bulk: false,
+            bulk_stream: false,
         };
         st.report("C01", &Case::MemBuild(case));
         return;
@@ -241,7 +242,7 @@ pub fn c01(cfg: &Cfg, idx: u64, st: &mut Stats) {
             Tier::Thorough => 3_000_000,
         };
         let fanout = *rng.pick(&[2u32, 26, 256]);
-        let fam = KeyFamily { n, fanout, keylen: 14, seed: rng.next_u64(), pairs: idx % 2 == 1, leaf_fan: 0, decreasing: false };
+        let fam = KeyFamily { n, fanout, keylen: 14, seed: rng.next_u64(), pairs: idx % 2 == 1, leaf_fan: 0, decreasing: false, repeat: 1 };
         let case = MemBuildCase {
             fam,
             map: idx % 2 == 0,
@@ -250,6 +251,7 @@ pub fn c01(cfg: &Cfg, idx: u64, st: &mut Stats) {
             every: 1000,
             shape: Shape::Random { short_16: 3, intr_16: 1 },
             bulk: false,
+            bulk_stream: false,
         };
         st.report("C01", &Case::MemBuild(case));
         return;
@@ -570,7 +572,7 @@ pub fn c11(cfg: &Cfg, idx: u64, st: &mut Stats) {
             Tier::Thorough => 3_000_000,
         };
         let case = MemBuildCase {
-            fam: KeyFamily { n, fanout: 26, keylen: 12, seed: rng.next_u64(), pairs: idx == 1, leaf_fan: 0, decreasing: false },
+            fam: KeyFamily { n, fanout: 26, keylen: 12, seed: rng.next_u64(), pairs: idx == 1, leaf_fan: 0, decreasing: false, repeat: 1 },
             map: idx % 2 == 0,
             registry: [None, Some((64, 2)), Some((3, 3))][(idx % 3) as usize],
             bufcap: if idx == 2 { Some(8192) } else { None },
@@ -578,6 +580,7 @@ pub fn c11(cfg: &Cfg, idx: u64, st: &mut Stats) {
             every: if idx < 3 { 0 } else { 50_000 + rng.below(n) * 2 },
             shape: Shape::Random { short_16: 2, intr_16: 1 },
             bulk: false,
+            bulk_stream: false,
         };
         st.report("C11", &Case::MemBuild(case));
         return;
@@ -721,7 +724,7 @@ pub fn c20(cfg: &Cfg, idx: u64, st: &mut Stats) {
         // values, with and without a recomputed checksum, truncations around
         // the end, and the older format versions (size thresholds in open /
         // verify must not turn garbage into a panic)
-        let fam = KeyFamily { n: 110_000, fanout: 26, keylen: 12, seed: rng.next_u64(), pairs: false, leaf_fan: 0, decreasing: false };
+        let fam = KeyFamily { n: 110_000, fanout: 26, keylen: 12, seed: rng.next_u64(), pairs: false, leaf_fan: 0, decreasing: false, repeat: 1 };
         let mut b = fst::MapBuilder::memory();
         let mut key = Vec::new();
         for i in 0..fam.n {
@@ -1042,13 +1045,14 @@ pub fn c08(cfg: &Cfg, idx: u64, st: &mut Stats) {
             Tier::Thorough => 4_000_000,
         };
         let case = MemBuildCase {
-            fam: KeyFamily { n, fanout: 26, keylen: 12, seed: rng.next_u64(), pairs: false, leaf_fan: 0, decreasing: false },
+            fam: KeyFamily { n, fanout: 26, keylen: 12, seed: rng.next_u64(), pairs: false, leaf_fan: 0, decreasing: false, repeat: 1 },
             map: true,
             registry: None,
             bufcap: None,
             every: 1000,
             shape: Shape::Random { short_16: 3, intr_16: 1 },
             bulk: false,
+            bulk_stream: false,
         };
         st.report("C08", &Case::MemBuild(case));
         return;
@@ -1240,6 +1244,46 @@ pub fn c15_sizes(cfg: &Cfg) -> u64 {
 
 pub fn c15(cfg: &Cfg, idx: u64, st: &mut Stats) {
     let mut rng = rng_for(cfg, idx);
+    if idx < 6 {
+        // large worlds at the shipped cache geometry: with thousands of
+        // distinct nodes the cache is under real pressure (third node in a
+        // bucket, evictions), so entry points that differ in how they set up
+        // the builder would differ in bytes; every in-memory entry point
+        // meets two builders that stream to a sink
+        let valued = idx % 2 == 0;
+        let n = [3_000usize, 12_000, 40_000][(idx / 2) as usize];
+        let mut keys: std::collections::BTreeSet<Vec<u8>> = std::collections::BTreeSet::new();
+        while keys.len() < n {
+            keys.insert(format!("{:08x}", rng.next_u64() as u32).into_bytes());
+        }
+        let items: Vec<Item> = keys.into_iter().map(|k| (k, if valued { rng.below(1 << 20) } else { 0 })).collect();
+        let mut tasks: Vec<MTask> = Vec::new();
+        let mems: &[crate::multi::MemFront] = if valued { &MEM_FRONTS_MAP } else { &MEM_FRONTS_SET };
+        for f in mems {
+            tasks.push(MTask { kind: MKind::Mem(*f), same: true });
+        }
+        let front = if valued { Front::Map } else { Front::Set };
+        for (fr, bulk) in [(front, false), (Front::Raw, true), (front, true)] {
+            let ops = if bulk {
+                vec![if fr == Front::Raw { Op::ExtIter(items.clone()) } else { Op::ExtStream(items.clone(), Via::Fst) }]
+            } else {
+                items.iter().map(|(k, v)| Op::Ins(k.clone(), *v)).collect()
+            };
+            tasks.push(MTask {
+                kind: MKind::Sink(BuildCase {
+                    task: TaskSpec { front: fr, registry: None, ops, fin: Fin::IntoInner },
+                    bufcap: None,
+                    prefill: vec![],
+                    plan: Plan::clean(),
+                    random: Some((Shape::Cap(4096), rng.next_u64())),
+                }),
+                same: true,
+            });
+        }
+        let case = MultiCase { items, valued, tasks, schedule: vec![], sched_seed: Some(rng.next_u64()) };
+        st.report("C15", &Case::Multi(case));
+        return;
+    }
     let valued = rng.chance(2, 3);
     let items = gen::sequence(&mut rng, 30, valued);
     let geometry = if rng.chance(1, 4) { None } else { gen::geometry(&mut rng) };
@@ -1322,12 +1366,13 @@ pub fn c13_cases(cfg: &Cfg) -> Vec<MemBuildCase> {
                 si += 1;
                 out.push(MemBuildCase {
                     shape: shapes[si % shapes.len()],
-                    fam: KeyFamily { n, fanout: 26, keylen: 12, seed: seed ^ n, pairs: g.map_or(false, |g| g.0 == 5) || (map && g.is_none()), leaf_fan: 0, decreasing: false },
+                    fam: KeyFamily { n, fanout: 26, keylen: 12, seed: seed ^ n, pairs: g.map_or(false, |g| g.0 == 5) || (map && g.is_none()), leaf_fan: 0, decreasing: false, repeat: 1 },
                     map,
                     registry: g,
                     bufcap: if map { None } else { Some(4096) },
                     every: 1000,
                     bulk: false,
+                    bulk_stream: false,
                 });
             }
         }
@@ -1335,13 +1380,14 @@ pub fn c13_cases(cfg: &Cfg) -> Vec<MemBuildCase> {
     // other fan-outs and key lengths at one scale (incl. the 256-way node)
     for (i, (f, l)) in [(2u32, 40u32), (256, 8), (64, 24), (256, 64), (10, 16), (33, 12)].iter().enumerate() {
         out.push(MemBuildCase {
-            fam: KeyFamily { n: 200_000, fanout: *f, keylen: *l, seed: seed ^ (*f as u64) << 8, pairs: i % 2 == 1, leaf_fan: 0, decreasing: false },
+            fam: KeyFamily { n: 200_000, fanout: *f, keylen: *l, seed: seed ^ (*f as u64) << 8, pairs: i % 2 == 1, leaf_fan: 0, decreasing: false, repeat: 1 },
             map: i % 2 == 0,
             registry: [None, Some((128, 2)), Some((3, 3))][i % 3],
             bufcap: None,
             every: 1000,
             shape: shapes[i % shapes.len()],
             bulk: false,
+            bulk_stream: false,
         });
     }
     // an unbounded number of DISTINCT wide nodes (leaf fans of 33..64 last
@@ -1349,85 +1395,118 @@ pub fn c13_cases(cfg: &Cfg) -> Vec<MemBuildCase> {
     // down on every insert)
     for (i, (fan, g)) in [(40u32, Some((3usize, 3usize))), (33, Some((64, 2))), (64, None), (48, Some((128, 2)))].iter().enumerate() {
         out.push(MemBuildCase {
-            fam: KeyFamily { n: if g.is_none() { 3_000_000 } else { 300_000 }, fanout: 26, keylen: 6, seed: seed ^ 0xfa4 ^ i as u64, pairs: false, leaf_fan: *fan, decreasing: i % 2 == 1 },
+            fam: KeyFamily { n: if g.is_none() { 3_000_000 } else { 300_000 }, fanout: 26, keylen: 6, seed: seed ^ 0xfa4 ^ i as u64, pairs: false, leaf_fan: *fan, decreasing: i % 2 == 1, repeat: 1 },
             map: i % 2 == 1,
             registry: *g,
             bufcap: None,
             every: 1000,
             shape: shapes[i % shapes.len()],
             bulk: false,
+            bulk_stream: false,
         });
     }
     for (i, g) in [Some((64usize, 2usize)), None, Some((1, 1))].iter().enumerate() {
         out.push(MemBuildCase {
-            fam: KeyFamily { n: if g.is_none() { 2_000_000 } else { 300_000 }, fanout: 10, keylen: 10, seed: seed ^ 0xdec ^ i as u64, pairs: i == 2, leaf_fan: 0, decreasing: true },
+            fam: KeyFamily { n: if g.is_none() { 2_000_000 } else { 300_000 }, fanout: 10, keylen: 10, seed: seed ^ 0xdec ^ i as u64, pairs: i == 2, leaf_fan: 0, decreasing: true, repeat: 1 },
             map: true,
             registry: *g,
             bufcap: None,
             every: 1000,
             shape: shapes[(i + 2) % shapes.len()],
             bulk: false,
+            bulk_stream: false,
         });
     }
     // the opposite extreme: complete F-ary trees (keylen == counter width),
     // i.e. very long stretches of keys that create no new node at all
     for (i, (f, l, g)) in [(2u32, 22u32, None), (4, 10, Some((64usize, 2usize))), (2, 18, Some((1, 1))), (4, 11, None)].iter().enumerate() {
         out.push(MemBuildCase {
-            fam: KeyFamily { n: (*f as u64).pow(*l), fanout: *f, keylen: *l, seed: seed ^ 0xde5e ^ i as u64, pairs: false, leaf_fan: 0, decreasing: false },
+            fam: KeyFamily { n: (*f as u64).pow(*l), fanout: *f, keylen: *l, seed: seed ^ 0xde5e ^ i as u64, pairs: false, leaf_fan: 0, decreasing: false, repeat: 1 },
             map: i == 1,
             registry: *g,
             bufcap: None,
             every: 1000,
             shape: shapes[i % shapes.len()],
             bulk: false,
+            bulk_stream: false,
         });
     }
     // one bulk call over a large slice (exact size hint) instead of a loop
     for (i, g) in [None, Some((64usize, 2usize))].iter().enumerate() {
         out.push(MemBuildCase {
-            fam: KeyFamily { n: 400_000, fanout: 26, keylen: 12, seed: seed ^ 0xb01c ^ i as u64, pairs: false, leaf_fan: 0, decreasing: false },
+            fam: KeyFamily { n: 400_000, fanout: 26, keylen: 12, seed: seed ^ 0xb01c ^ i as u64, pairs: false, leaf_fan: 0, decreasing: false, repeat: 1 },
             map: i == 0,
             registry: *g,
             bufcap: None,
             every: 1000,
             shape: Shape::Full,
             bulk: true,
+            bulk_stream: false,
+        });
+    }
+    // one extend_stream call fed by the stream of a large source FST
+    for (i, g) in [None, Some((64usize, 2usize)), Some((3, 3))].iter().enumerate() {
+        out.push(MemBuildCase {
+            fam: KeyFamily { n: 400_000, fanout: 26, keylen: 12, seed: seed ^ 0x57e ^ i as u64, pairs: false, leaf_fan: 0, decreasing: false, repeat: 1 },
+            map: i != 2,
+            registry: *g,
+            bufcap: None,
+            every: 1000,
+            shape: Shape::Full,
+            bulk: true,
+            bulk_stream: true,
+        });
+    }
+    // sets fed long runs of one and the same key (a legal no-op each time)
+    for (i, (bulk, g)) in [(true, Some((64usize, 2usize))), (false, Some((3, 3))), (true, None)].iter().enumerate() {
+        out.push(MemBuildCase {
+            fam: KeyFamily { n: if g.is_none() { 4_000_000 } else { 600_000 }, fanout: 26, keylen: 12, seed: seed ^ 0x4e9 ^ i as u64, pairs: false, leaf_fan: 0, decreasing: false, repeat: 150_000 },
+            map: false,
+            registry: *g,
+            bufcap: None,
+            every: 1000,
+            shape: Shape::Full,
+            bulk: *bulk,
+            bulk_stream: false,
         });
     }
     if cfg.tier == Tier::Thorough {
         for map in [false, true] {
             out.push(MemBuildCase {
-                fam: KeyFamily { n: 30_000_000, fanout: 26, keylen: 13, seed: seed ^ 99, pairs: !map, leaf_fan: 0, decreasing: false },
+                fam: KeyFamily { n: 30_000_000, fanout: 26, keylen: 13, seed: seed ^ 99, pairs: !map, leaf_fan: 0, decreasing: false, repeat: 1 },
                 map,
                 registry: None,
                 bufcap: None,
                 every: 10_000,
                 shape: Shape::Full,
                 bulk: false,
+                bulk_stream: false,
             });
         }
         for (f, l) in [(2u32, 40u32), (10, 16), (64, 24), (256, 64), (256, 8)] {
             for g in [None, Some((128, 2)), Some((0, 0))] {
                 out.push(MemBuildCase {
-                    fam: KeyFamily { n: 2_000_000, fanout: f, keylen: l, seed: seed ^ f as u64, pairs: l % 16 == 0, leaf_fan: 0, decreasing: false },
+                    fam: KeyFamily { n: 2_000_000, fanout: f, keylen: l, seed: seed ^ f as u64, pairs: l % 16 == 0, leaf_fan: 0, decreasing: false, repeat: 1 },
                     map: f % 4 == 0,
                     registry: g,
                     bufcap: None,
                     every: 1000,
                     shape: if l % 16 == 0 { Shape::Cap(4096) } else { Shape::Random { short_16: 2, intr_16: 1 } },
                     bulk: false,
+                    bulk_stream: false,
                 });
             }
         }
         for map in [false, true] {
             out.push(MemBuildCase {
-                fam: KeyFamily { n: 10_000_000, fanout: 26, keylen: 12, seed: seed ^ 77, pairs: map, leaf_fan: 0, decreasing: false },
+                fam: KeyFamily { n: 10_000_000, fanout: 26, keylen: 12, seed: seed ^ 77, pairs: map, leaf_fan: 0, decreasing: false, repeat: 1 },
                 map,
                 registry: None,
                 bufcap: None,
                 every: 1000,
                 shape: if map { Shape::Cap(4096) } else { Shape::Random { short_16: 2, intr_16: 1 } },
                 bulk: false,
+                bulk_stream: false,
             });
         }
     }
